@@ -49,7 +49,8 @@ CLAIMS = {
             "type-unit clause only: DIEs of the three debug-info sources are kept in distinct containers (R-DIESRC), each "
             "section is walked under its own source tag with the matching libdw handle and offdie function (R-UNITSRC), "
             "and a unit is filed under the .debug_types source only after its DWARF version was looked at (R-TUSECTION: "
-            "today it is not - DWARF 5 type units are lost, a recorded and replayed finding)",
+            "today it is not - DWARF 5 type units are lost, a recorded and replayed finding); R-MEMBERTAG: the class and union "
+            "builders treat DW_TAG_member and DW_TAG_variable children alike (DWARF 4 vs 5 spelling of static members)",
             "the DWARF contents themselves (forms, DWARF 4 vs 5 attribute encodings, column information) are decoded by "
             "elfutils and interpreted at run time",
             "§8.6 (added after the design: C43 was first declared not applicable)"),
